@@ -100,6 +100,7 @@ func (fv *FnVerifier) run() {
 		v := fv.freshVal("p."+p.Name(), p.Type(), st)
 		fv.env[p] = v
 		fv.names[p.Name()] = v
+		fv.names[p.Name()+"0"] = v // entry value under a name that a loop variable of the same name cannot shadow
 		fv.params = append(fv.params, v)
 		if i == 0 && fn.Signature.Recv() != nil {
 			if _, ok := p.Type().Underlying().(*types.Pointer); ok {
